@@ -80,6 +80,18 @@ def search(prop, failures, reg, seed):
 
 
 def replay(prop, inp):
+    if inp["cmd"][0] == "e2e":
+        # a document recorded by the end-to-end engine: run it again through the binary built from the current tree
+        import e2e
+        ok, err = e2e.build()
+        if not ok:
+            print("the scrut binary does not build:", err[-300:])
+            return 2
+        c = inp["case"]["case"]
+        rc, res, errtxt = e2e.scrut([tuple(d) for d in c["docs"]], tuple(c["args"]))
+        print(json.dumps({"recorded": inp["case"]["why"], "now": {"exit": rc, "results": res}})[:1500])
+        print(f"REPLAY property={prop}: the recorded documents were run again on the current tree (compare `now` with the expectation in `recorded`)")
+        return 0
     ok, err = build()
     if not ok:
         print("replay crate does not build:", err[-300:])
